@@ -67,6 +67,8 @@ type callRec struct {
 	MsgLen  int  // size target, if any
 	W0, W1  int  // wire index range [W0,W1) written by the app task during the call
 	Faulted bool // a transport write fault was injected into this call
+	IllSet  bool // one value of record 0 cannot be encoded for its element (field IllIdx)
+	IllIdx  int
 }
 
 type tmplInfo struct {
@@ -807,6 +809,7 @@ func (s *expSession) opData1(i int, op plan.Op) {
 			if k, el, why := illTyped(recSpecs, illKind); k >= 0 {
 				elems[k] = el
 				c.Valid, c.Expect, c.Why = false, "error", why
+				c.IllSet, c.IllIdx = true, k
 			}
 		}
 		var err error
@@ -1153,9 +1156,12 @@ func (s *expSession) checkWire(prop string) {
 			continue
 		}
 		c := s.calls[w.Call]
-		if c.Expect == "error" {
+		if c.Expect == "error" && !c.IllSet {
 			continue // this message should not exist at all: reported by checkNoInvalid, not compared here
 		}
+		// (A message whose record 0 holds one value that cannot be encoded should not exist either -
+		// that is reported by checkNoInvalid - but if it was transmitted, every OTHER value of it
+		// still has to be the one that was handed in.)
 		if len(recs) != len(c.Records) {
 			s.env.Violate("wire-data-count", loc, "wire message %d: %d records on the wire, %d handed", i, len(recs), len(c.Records))
 			continue
@@ -1167,6 +1173,9 @@ func (s *expSession) checkWire(prop string) {
 			}
 			bad := false
 			for fi := range recs[ri] {
+				if c.IllSet && ri == 0 && fi == c.IllIdx {
+					continue
+				}
 				if !bytes.Equal(recs[ri][fi], c.Records[ri].Wires[fi]) {
 					sp := ti.Specs[fi]
 					s.env.Violate("wire-value", fmt.Sprintf("type%d", sp.Type), "wire message %d record %d field %d (%s, type %d): wire % x, handed % x", i, ri, fi, sp.Name, sp.Type, head(recs[ri][fi], 24), head(c.Records[ri].Wires[fi], 24))
